@@ -219,6 +219,60 @@ def count_clauses(unit):
     return n
 
 
+HINT_KINDS = ('before', 'after', 'stmt', 'at', 'head', 'tail', 'loopstart', 'loopend')
+
+
+def _blank_assert(text_lines, line, col):
+    """blank (keep the line structure) the `assert ...;` statement that contains position (line, col), 1-based; -> bool"""
+    # offsets
+    starts = [0]
+    for l in text_lines:
+        starts.append(starts[-1] + len(l) + 1)
+    full = '\n'.join(text_lines)
+    from .source import mask as _mask
+    m = _mask(full)
+    pos = starts[line - 1] + max(col - 1, 0)
+    a = m.rfind('assert', 0, pos + 6)
+    if a < 0 or (a > 0 and (m[a - 1].isalnum() or m[a - 1] == '_')):
+        return False
+    # no statement boundary between the keyword and the reported position
+    if ';' in m[a:pos]:
+        return False
+    j = a
+    depth = 0
+    by_block = False
+    end = None
+    while j < len(m):
+        c = m[j]
+        if c in '([{':
+            if c == '{' and depth == 0 and re.search(r'\bby\s*$', m[a:j]):
+                by_block = True
+            depth += 1
+        elif c in ')]}':
+            depth -= 1
+            if depth < 0:
+                return False
+            if depth == 0 and c == '}' and by_block:
+                end = j + 1
+                # optional trailing semicolon
+                k = end
+                while k < len(m) and m[k] in ' \t':
+                    k += 1
+                if k < len(m) and m[k] == ';':
+                    end = k + 1
+                break
+        elif c == ';' and depth == 0:
+            end = j + 1
+            break
+        j += 1
+    if end is None:
+        return False
+    blanked = ''.join(ch if ch == '\n' else ' ' for ch in full[a:end])
+    new = full[:a] + blanked + full[end:]
+    text_lines[:] = new.split('\n')
+    return True
+
+
 def verify_unit(name, sources, rlimit=None, keep_dir=None, extra=None):
     rep = UnitReport(name)
     try:
@@ -266,7 +320,42 @@ def verify_unit(name, sources, rlimit=None, keep_dir=None, extra=None):
                         fb['success'] = True
                         fb['note'] = 'verified in isolation after an unstable whole-unit run'
             else:
-                keep += [d for d in r2.diags if d.level == 'error']
+                # Stale proof hints: when everything that fails in the function is an `assert` of a spliced proof hint (not a
+                # contract clause, not a loop invariant, not an obligation of the code itself), the function is re-verified
+                # with those asserts removed - a hint placed for one statement order may simply be false for another, and
+                # Verus assumes a failed assert afterwards, which would hide what the code really does. Removing an assert
+                # can never make a wrong function verify: if it now verifies, its contract holds; if not, the failures of
+                # that run (now about the contract) are the ones reported.
+                cur_diags = [d for d in r2.diags if d.level == 'error']
+                work = text.split('\n')
+                dropped = 0
+                for _round in range(3):
+                    errs = cur_diags
+
+                    def is_hint(d):
+                        o = u.origin(d.line) if d.line else ('?',)
+                        return 'assertion failed' in d.message.lower() and o[0] == 'spec' and o[2] in HINT_KINDS
+                    if not errs or not all(is_hint(d) for d in errs):
+                        break
+                    n0 = dropped
+                    for d in errs:
+                        if _blank_assert(work, d.line, d.primary.get('column_start', 1) if d.primary else 1):
+                            dropped += 1
+                    if dropped == n0:
+                        break
+                    r3 = verus.run('\n'.join(work), name, rlimit=rlimit, extra=['--verify-root', '--verify-function', short])
+                    if r3.crashed or (r3.verified == 0 and r3.errors == 0):
+                        break
+                    cur_diags = [d for d in r3.diags if d.level == 'error']
+                    if r3.errors == 0 and r3.verified >= 1:
+                        cur_diags = []
+                        for fb in res.functions:
+                            if fb['function'] == full:
+                                fb['success'] = True
+                                fb['note'] = 'verified after %d stale proof hint(s) (asserts spliced by the template) were dropped' % dropped
+                        rep.isolated[-1]['verified_without_stale_hints'] = dropped
+                        break
+                keep += cur_diags
         diags = keep
     sent_fail = False
     counts = {}
